@@ -49,3 +49,5 @@ def run(ctx):
     lib_module.module_every_path(ctx, P, classes=lib_module.TABLE_CLASSES + ("TableCollection",), floor=40)
     lib_py.facade_names(ctx, py, P, classes=tuple(("tables", c) for c in lib_py.FACADES["tables"]), floor=60)
     lib_mem.c_lints(ctx, ctx.program(), scopes.lib_scope("C13"))
+    from . import lib_kind5
+    lib_kind5.append_atomic(ctx, ctx.program())
